@@ -35,6 +35,11 @@ func (txMap *txListBySenderMap) addTxReturnEvicted(tx *WrappedTransaction) (bool
 	listForSender := txMap.getOrAddListForSender(sender)
 
 	added, evictedHashes := listForSender.AddTx(tx)
+	if len(evictedHashes) > 0 {
+		// Applying the sender-level constraints might have emptied the list (e.g. a single, very large transaction).
+		txMap.removeSenderIfEmpty(listForSender)
+	}
+
 	return added, evictedHashes
 }
 
